@@ -109,7 +109,7 @@ class PoolReplayer(E.Replayer):
             rec["refused"] = type(e).__name__      # the model's life-cycle ops return a fault, no `raise`
         rec["full"] = E.dump_full(ex, sorted(self.sc.apps), self.addrs, list(self.sid.values()), ex._name)
         rec["fin"] = {self.sid[i]: st for i, st in self.state.items() if i in self.sid}
-        rec["obs"] = E.canon_real(ex, self.uid2idx)
+        rec["obs"] = E.canon_real(ex, self.uid2idx, self.oracle.ident2uid)
         self.steps.append(rec)
         if "refused" in rec and (snap_all(ex) != before or set(ex._used_physical_qubit_addresses) != used0):
             self.bad("a refused %s changed the executor state" % ("stop" if tok[0] == "x" else "registration"), tok)
